@@ -217,7 +217,10 @@ func (b *MirroredBuffer) Commit(n int) int {
 		n = free
 	}
 	b.used += n
-	b.tail = (b.tail + n) & b.sizeMask
+	// n <= size, so a single subtraction wraps; a mask would only be right for power-of-two sizes.
+	if b.tail += n; b.tail >= b.size {
+		b.tail -= b.size
+	}
 	return n
 }
 
@@ -229,7 +232,9 @@ func (b *MirroredBuffer) Consume(n int) int {
 		return 0
 	}
 	b.used -= n
-	b.head = (b.head + n) & b.sizeMask
+	if b.head += n; b.head >= b.size {
+		b.head -= b.size
+	}
 	return n
 }
 
